@@ -233,7 +233,11 @@ func (e *EdgeTessellator) appendProjected(pa r2.Point, a Point, pbIn r2.Point, b
 	mid := Point{a.Add(b.Vector).Normalize()}
 	pmid := e.projection.WrapDestination(pa, e.projection.Project(mid))
 	vertices = e.appendProjected(pa, a, pmid, mid, vertices)
-	return e.appendProjected(pmid, mid, pb, b, vertices)
+	// Continue from the vertex that was actually emitted for the midpoint: the
+	// first half may have moved it by a whole wrap (when the longitude jumps
+	// by exactly half a wrap, e.g. at a pole), and every vertex must be as
+	// close as possible to the previous one.
+	return e.appendProjected(vertices[len(vertices)-1], mid, pb, b, vertices)
 }
 
 // AppendUnprojected converts the planar edge AB in the given projection to a chain of
